@@ -431,11 +431,42 @@ def ast_eq(a, b):
     return json.dumps(norm(a), sort_keys=True) == json.dumps(norm(b), sort_keys=True)
 
 
+def py_eq(a, b):
+    """Python == between two canonical values (what Choices.check uses)"""
+    num = lambda v: (int(v["z"]) if "z" in v else None) if v["k"] in ("int", "float") else (int(v["b"]) if v["k"] == "bool" else None)
+    na, nb = num(a), num(b)
+    if na is not None or nb is not None:
+        return na is not None and na == nb
+    if a["k"] != b["k"]:
+        return False
+    if a["k"] == "float":
+        return a["bits"] == b["bits"] and a["bits"] != NAN_BITS
+    if a["k"] == "list":
+        return len(a["l"]) == len(b["l"]) and all(py_eq(x, y) for x, y in zip(a["l"], b["l"]))
+    if a["k"] == "dict":
+        return len(a["ps"]) == len(b["ps"]) and all(any(py_eq(k, k2) and py_eq(x, x2) for k2, x2 in b["ps"]) for k, x in a["ps"])
+    return json.dumps(a, sort_keys=True) == json.dumps(b, sort_keys=True)
+
+
+def check_py(ck, v):
+    """Checker.check on a canonical value; a check that raises (len() of a number) refuses"""
+    if ck is None:
+        return True
+    if ck["k"] == "nonempty":
+        return (v["k"] == "list" and len(v["l"]) > 0) or (v["k"] == "dict" and len(v["ps"]) > 0) or (v["k"] == "str" and v["s"] != "")
+    return any(py_eq(v, x) for x in ck["choices"])
+
+
 def oracle_initial(c, case, a, t, optional, data):
     """a parameter that was never assigned: H() holds the declared default as a value of the declared type -
     i.e. after the documented coercions, exactly what assigning the default would store - or None / nothing"""
     d = case.get("default")
     expected = coerce_doc(d, t) if d is not None else None
+    refused = expected is not None and not check_py(case.get("checker"), expected)   # the checker refuses the default
+    if refused:
+        if not a.get("init_raised"):
+            c.violation("C15:checker-ignored", "a declared default that the checker of the parameter refuses is held", data)
+        return
     if a.get("init_raised"):
         if d is None or expected is not None:
             c.violation("C15:construction-raised", "a configuration whose default is of the declared type (up to "
@@ -470,10 +501,16 @@ def oracle_assign(c, case, a):
         return
     annot = case["annot"]
     t = strip_opt(annot)
-    optional = annot["k"] == "opt" or case.get("default") is not None
+    declared_optional = annot["k"] == "opt"                      # None is a value of the parameter
+    optional = declared_optional or case.get("default") is not None   # a fresh object may hold None / a default
     v = a["input"]
     data = dict(kind="assign", case=case, answer=a)
-    oracle_initial(c, case, a, t, optional, data)
+    ck = case.get("checker")
+    if case.get("bare_field") and not declared_optional and not a.get("required"):
+        c.violation("C15:bare-field-optional", "x: Param[T] = field() - neither default nor factory - declares a "
+                    "parameter that is silently optional: a missing value is never reported", data)
+        return          # everything else about this case follows from that
+    oracle_initial(c, case, a, t, declared_optional if case.get("bare_field") else optional, data)
     if a.get("init_raised"):
         return
     if a["raised"]:
@@ -481,19 +518,28 @@ def oracle_assign(c, case, a):
             c.violation("C15:raise-changed-value", "an assignment raised and the stored value changed", data)
     else:
         s = a["after"]
-        ok = (optional if s["k"] == "none" else (s["k"] != "absent" and conforms(s, t)))
+        ok = (declared_optional if s["k"] == "none" else (s["k"] != "absent" and conforms(s, t)))
         if not ok:
-            key = why_not(s, t) if s["k"] not in ("none", "absent") else "stored-none-required"
-            c.violation("C15:" + key, "an assignment stored a value that is not of the declared type", data)
+            if s["k"] == "none" and v["k"] == "none" and (case.get("default") is not None or case.get("bare_field")):
+                c.violation("C15:none-for-defaulted-parameter", "None, given to a parameter that is not declared "
+                            "Optional (it has a default), is stored: the parameter holds no value of its type", data)
+            else:
+                key = why_not(s, t) if s["k"] not in ("none", "absent") else "stored-none-required"
+                c.violation("C15:" + key, "an assignment stored a value that is not of the declared type", data)
         if not ast_eq(a.get("readback"), s):
             c.violation("C15:readback-differs", "reading the parameter does not give the stored value", data)
     writable = not case.get("sealed")
     if v["k"] == "none":
-        expected = v if optional else None
+        expected = v if declared_optional else None
     else:
         expected = coerce_doc(v, t)
     if expected is None and v["k"] != "none" and not a["raised"]:
         report_undocumented(c, v, t, data)
+    if expected is not None and v["k"] != "none" and not check_py(ck, expected):
+        # the checker looks at the coerced value and refuses it: the assignment must raise
+        if not a["raised"]:
+            c.violation("C15:checker-ignored", "a value that the checker of the parameter refuses was stored", data)
+        return
     if expected is not None and writable:
         if a["raised"]:
             c.violation("C15:conforming-rejected:" + t["k"], "a conforming (or documented-coercible) value was refused", data)
@@ -521,7 +567,7 @@ def node_children(nodes, i, init, deep):
     return out + list(n.get("pre", [])) + list(init)
 
 
-def reachable(nodes, root, inits, deep=True, stop=()):
+def reachable(nodes, root, inits, deep=True, stop=(), stop_root=False):
     """the configurations below root: through parameter values (deep: also inside lists and dicts),
     pre-tasks and init tasks.  inits: {node: init tasks its submit gave it} (a list = those of root).
     Nodes in `stop` are neither listed nor entered."""
@@ -530,7 +576,7 @@ def reachable(nodes, root, inits, deep=True, stop=()):
     seen, todo = [], [root]
     while todo:
         i = todo.pop()
-        if i in seen or (i in stop and i != root):
+        if i in seen or (i in stop and (i != root or stop_root)):
             continue
         seen.append(i)
         todo += node_children(nodes, i, inits.get(i, []), deep)
@@ -660,23 +706,58 @@ def gen_graph(rng, idx):
     else:
         roots = [rng.randrange(n) for _ in range(rng.choice([1, 2]))]
         ops = [{"op": "validate", "root": r, "init": []} for r in roots]
-    return {"mode": mode, "nodes": nodes, "ops": ops, "removed": removed}
+    case = {"mode": mode, "nodes": nodes, "ops": ops, "removed": removed}
+    if mode != "validate":
+        all_init = {r: list(v) for r, v in init.items()}
+        # configurations that are saved and loaded back before being used (from_state_dict): sealed, never validated.
+        # A region = a configuration and everything below it, referenced from outside through its root only
+        if rng.random() < 0.3:
+            region, roots = set(), []
+            cands = [i for i in range(nroots, n) if classes[i] in (C_N, C_N1, C_N2)]
+            rng.shuffle(cands)
+            for L in cands[:3]:
+                D = set(reachable(nodes, L, {}))
+                if D & region or any(classes[i] == C_TK for i in D):
+                    continue
+                inner = D - {L}
+                outside_refs = [j for i in range(n) if i not in D
+                                for j in node_children(nodes, i, all_init.get(i, []), True)]
+                if any(j in inner for j in outside_refs):
+                    continue
+                region |= D
+                roots.append(L)
+                if rng.random() < 0.6:
+                    break
+            if roots:
+                case["loaded"] = {"roots": roots, "region": sorted(region)}
+        # instance() - validate, seal, build - on the task or on a configuration, before the submits
+        if rng.random() < 0.3:
+            j = 0 if rng.random() < 0.5 else rng.randrange(n)
+            case["ops"] = [{"op": "instance", "root": j}] + case["ops"]
+    return case
 
 
 def history(case, answers):
-    """(k, op, answer, nodes, inits) per call, with the objects as they are at the time of the call - as far
-    as the implementation's own answers tell: an assignment that did not raise replaces the field, a submit gives
-    its root its init tasks (before validating)"""
+    """(k, op, answer, nodes, inits, sealed) per call, with the objects as they are at the time of the call - as
+    far as the implementation's own answers tell: an assignment that did not raise replaces the field, a submit
+    gives its root its init tasks (before validating; the answer says what it left), an accepted submit or
+    instance() seals everything below; loaded configurations are sealed from the start"""
     nodes = case["nodes"]
     inits = {}
+    sealed = set((case.get("loaded") or {}).get("region", []))
     for k, (op, a) in enumerate(zip(case["ops"], answers)):
         if op["op"] == "submit":
             inits = dict(inits)
             inits[op["root"]] = list(op.get("init", []))
-        yield k, op, a, nodes, inits
+        yield k, op, a, nodes, inits, frozenset(sealed)
         if op["op"] == "set" and not a["raised"]:
             nodes = json.loads(json.dumps(nodes))
             nodes[op["node"]]["fields"][op["field"]] = op["value"]
+        if op["op"] == "submit" and "init" in a:
+            inits = dict(inits)
+            inits[op["root"]] = list(a["init"])
+        if op["op"] in ("submit", "instance") and not a["raised"]:
+            sealed |= set(reachable(nodes, op["root"], inits))
 
 
 def task_refs(nodes, v):
@@ -688,7 +769,7 @@ def oracle_graph(c, case, answers):
     tried = set()
     accepted, rejected = set(), set()     # tasks by the outcome of their submits so far
     job, init_now = {}, {}                # what the previous calls left on each object
-    for k, op, a, nodes, inits in history(case, answers):
+    for k, op, a, nodes, inits, sealed in history(case, answers):
         subject = op["node"] if op["op"] == "set" else op["root"]
         data = dict(kind="graph", case=case, answers=answers, op=k)
         if op["op"] == "set":
@@ -719,10 +800,16 @@ def oracle_graph(c, case, answers):
         if missing and not a["raised"]:
             direct = reachable(nodes, op["root"], inits, deep=False)
             outside = reachable(nodes, op["root"], inits, stop=tried)    # not on / below a task submitted earlier
+            unsealed = reachable(nodes, op["root"], inits, stop=sealed, stop_root=True)
             if not any(i in outside for i in missing):
                 key = "C15:missing-below-submitted-task"
                 what = ("a required value is missing on (or below) a task that went through its own submit before "
                         "being given as a parameter: the task that holds it is accepted and its job registered")
+            elif not any(i in unsealed for i in missing):
+                key = "C15:missing-below-sealed-configuration"
+                what = ("a required value is missing on (or only reachable through) a configuration that is already "
+                        "sealed - loaded from a saved definition, or a task instantiated before submit(init_tasks=...) "
+                        "- and the task is accepted: sealed does not mean validated")
             elif not any(i in direct for i in missing):
                 key = "C15:missing-in-container"
                 what = ("a required value is missing on a configuration held in a list or a dict: "
@@ -797,11 +884,18 @@ def g_classes(table):
     out = []
     for cdef in table:
         args = glist(f"{{| a_ty := {g_type(a['ty'])}; a_required := {gbool(a['required'])}; "
-                     f"a_generated := {gbool(a['generated'])}; a_constant := {gbool(a['constant'])} |}}"
+                     f"a_generated := {gbool(a['generated'])}; a_constant := {gbool(a['constant'])}; "
+                     f"a_optional := {gbool(a['optional'])}; a_checker := None |}}"
                      for a in cdef["args"])
         out.append(f"{{| c_parents := {glist(gnat(p) for p in cdef['parents'])}; c_task := {gbool(cdef['task'])}; "
                    f"c_args := {args} |}}")
     return "Definition cl : classes := " + glist(out) + "."
+
+
+def g_checker(ck):
+    if ck["k"] == "nonempty":
+        return "CNonEmpty"
+    return "(CChoices " + glist("(" + g_value(x) + ")" for x in ck["choices"]) + ")"
 
 
 def g_assign(case):
@@ -815,7 +909,8 @@ def g_assign(case):
     v = a["input"] if a["declared"] else case["v"]
     return (f"{{| ac_annot := {g_type(case['annot'], 'A')}; ac_default := {gopt(case.get('default'), par)}; "
             f"ac_old := {gopt(case.get('old'), par)}; ac_sealed := {gbool(case.get('sealed', False))}; "
-            f"ac_ctor := {gbool(case['via'] == 'ctor')}; ac_v := {g_value(v)}; ac_ans := {ans} |}}")
+            f"ac_ctor := {gbool(case['via'] == 'ctor')}; ac_checker := {gopt(case.get('checker'), g_checker)}; "
+            f"ac_v := {g_value(v)}; ac_ans := {ans} |}}")
 
 
 def g_graph(case, table):
@@ -832,22 +927,26 @@ def g_graph(case, table):
         return x
 
     hs = []
+    region = set((case.get("loaded") or {}).get("region", []))     # loaded configurations are sealed
     for i, n in enumerate(case["nodes"]):
         fs = [f"({gnat(names[n['c']].index(name))}, {g_value(fill(v))})" for name, v in n["fields"].items()]
         hs.append(f"{{| n_cls := {gnat(n['c'])}; n_fields := {glist(fs)}; n_pre := {glist(gnat(j) for j in n.get('pre', []))}; "
-                  f"n_init := []; n_sealed := false |}}")
+                  f"n_init := []; n_sealed := {gbool(i in region)} |}}")
 
     def g_op(op):
         if op["op"] == "submit":
             return f"OSubmit {gnat(op['root'])} {glist(gnat(j) for j in op.get('init', []))}"
         if op["op"] == "validate":
             return f"OValidate {gnat(op['root'])}"
+        if op["op"] == "instance":
+            return f"OInstance {gnat(op['root'])}"
         cc = case["nodes"][op["node"]]["c"]
         return f"OSet {gnat(op['node'])} {gnat(names[cc].index(op['field']))} ({g_value(fill(op['value']))})"
 
     ops = glist(g_op(op) for op in case["ops"])
     ans = glist(f"{{| oa_raised := {gbool(a['raised'])}; oa_delta := {gnat(a['delta'])}; oa_job := {gbool(a.get('job', False))}; "
-                f"oa_init := {glist(gnat(j) for j in a.get('init', []))} |}}" for a in case["ans"])
+                f"oa_init := {glist(gnat(j) for j in a.get('init', []))}; oa_sealed := {gbool(a.get('sealed', False))} |}}"
+                for a in case["ans"])
     return f"{{| gc_heap := {glist(hs)}; gc_ops := {ops}; gc_ans := {ans} |}}"
 
 
@@ -895,10 +994,73 @@ def gen_assign(rng):
         case["via"] = "setattr"
     else:
         case["v"], case["edit_depth"] = gen_offbyone(ctx, t)
+    # a checker on the parameter (x: Annotated[T, Choices([...])] or a user-defined Checker): the type coerces, then
+    # the checker sees the coerced value.  Choices built around what the candidate / the default become once
+    # coerced (so that values that NEED a coercion are accepted), plus other values of the type
+    if stream != "nested-optional" and not has_obj_type(t) and rng.random() < 0.22:
+        if rng.random() < (0.5 if t["k"] in ("list", "dict", "str") else 0.1):
+            case["checker"] = {"k": "nonempty"}
+        else:
+            choices = []
+            ev = coerce_doc(case["v"], t) if case["v"]["k"] != "none" else None
+            if ev is not None and rng.random() < 0.75:
+                choices.append(case["v"] if rng.random() < 0.3 else ev)     # as written / as coerced: == either way
+            ed = coerce_doc(case["default"], t) if case.get("default") is not None else None
+            if ed is not None and rng.random() < 0.8:
+                choices.append(ed)
+            if case.get("old") is not None and rng.random() < 0.8:
+                choices.append(case["old"])
+            for _ in range(rng.choice([0, 1, 2])):
+                choices.append(gen_conforming(ctx, t))
+            rng.shuffle(choices)
+            case["checker"] = {"k": "choices", "choices": choices}
+    # x: Param[T] = field() with neither default nor default_factory
+    if case.get("default") is None and stream != "nested-optional" and rng.random() < 0.03:
+        case["bare_field"] = True
     return case
 
 
-def run_driver(c, assign, graphs, nproc=16):
+# ------------------------------------------------------------------ Union-typed parameters (directed, no Coq model)
+UNIONS = [[{"k": "int"}, {"k": "str"}], [{"k": "enum", "e": 0}, {"k": "int"}], [{"k": "str"}, {"k": "float"}],
+          [{"k": "path"}, {"k": "bool"}], [{"k": "enum", "e": 1}, {"k": "str"}, {"k": "int"}]]
+
+
+def gen_special(rng):
+    """x: Param[Union[...]] (= default) given a scalar of one of the member types, of another type, a list or a
+    dict.  The type constructor is outside the modelled type expressions; the property is checked by the oracle only"""
+    ctx = Ctx(rng)
+    out = []
+    for ts in UNIONS:
+        values = [gen_conforming(ctx, t) for t in ts] + [rand_value(ctx, with_objs=False) for _ in range(4)]
+        values += [{"k": "dict", "ps": []}, {"k": "dict", "ps": [[v_str("a"), v_int(1)]]}, {"k": "list", "l": [v_int(1)]}]
+        for v in values:
+            if v["k"] == "none":
+                continue
+            default = gen_conforming(ctx, ts[0]) if rng.random() < 0.3 else None
+            out.append({"annot": {"k": "union", "ts": ts}, "v": v, "default": default})
+    return out
+
+
+def oracle_special(c, case, a):
+    if not a["declared"]:
+        return
+    ts, v = case["annot"]["ts"], a["input"]
+    data = dict(kind="special", case=case, answer=a)
+    if a["raised"]:
+        if not ast_eq(a["after"], a["before"]):
+            c.violation("C15:raise-changed-value", "an assignment raised and the stored value changed", data)
+        if any(conforms(v, t) for t in ts):
+            c.violation("C15:union-member-rejected", "a value of one of the member types of a Union-typed parameter "
+                        "is refused (a member type that refuses with an assertion stops the search)", data)
+    else:
+        s = a["after"]
+        if not any(conforms(s, t) for t in ts):
+            c.violation("C15:union-stores-none" if s["k"] == "none" else "C15:union-stored-nonconforming",
+                        "a Union-typed parameter given a value of none of its member types neither raises nor stores "
+                        "a value of the declared type (a dict is silently turned into None)", data)
+
+
+def run_driver(c, assign, graphs, special=(), nproc=16):
     """split the cases over driver processes (each with its own experiment)"""
     chunks = []
     na = max(1, (len(assign) + nproc - 1) // nproc)
@@ -910,7 +1072,8 @@ def run_driver(c, assign, graphs, nproc=16):
     scratch = str(c.scratch())
 
     def one(ch):
-        return run_impl("drive_c15.py", dict(assign=ch[0], graphs=ch[1]), timeout=1500,
+        return run_impl("drive_c15.py", dict(assign=ch[0], graphs=ch[1], special=list(special) if ch is chunks[0] else []),
+                        timeout=1500,
                         extra_env={"C15_SCRATCH": scratch, "XPM_WORKDIR": scratch})
 
     with ThreadPoolExecutor(max_workers=nproc) as ex:
@@ -924,7 +1087,10 @@ def run_driver(c, assign, graphs, nproc=16):
             raise InternalError("driver stopped early: " + str(r.get("experiment_exit")))
         ra += r["assign"]
         rg += r["graphs"]
-    return table, ra, rg
+    rs = results[0].get("special", []) if results else []
+    if len(rs) != len(special):
+        raise InternalError("driver stopped early (directed cases)")
+    return table, ra, rg, rs
 
 
 def check_table(table):
@@ -958,13 +1124,15 @@ def run(c: Check):
     c.build()
     c.props()
     n_assign, n_graph = (3000, 1200) if c.quick else (60000, 24000)
-    assign, graphs = [], []
+    assign, graphs, special = [], [], []
     if c.replay:
         rp = json.load(open(c.replay))["replay"]
         if rp.get("kind") == "assign":
             assign.append(rp["case"])
         elif rp.get("kind") == "graph":
             graphs.append(rp["case"])
+        elif rp.get("kind") == "special":
+            special.append(rp["case"])
         n_assign = n_graph = 0
     else:
         gold = ROOT / "golden" / "c15.json"
@@ -978,7 +1146,9 @@ def run(c: Check):
         graphs.append(gen_graph(c.rng, base + i + 1))
     import time
     t0 = time.time()
-    table, ra, rg = run_driver(c, assign, graphs)
+    if not c.replay:
+        special = gen_special(c.rng)
+    table, ra, rg, rs = run_driver(c, assign, graphs, special)
     check_table(table)
     c.extra["driver_wall_s"] = round(time.time() - t0, 1)
 
@@ -998,6 +1168,14 @@ def run(c: Check):
             c.count("assign:offbyone=" + ("raised" if a["raised"] else "stored"))
         c.count("assign:outcome=" + ("undeclarable" if not a["declared"] else "construction-raised" if a.get("init_raised")
                                      else ("raised:" + a.get("exc", "?") if a["raised"] else "stored")))
+        if case.get("checker") is not None and a["declared"]:
+            exp_ = coerce_doc(a["input"], strip_opt(case["annot"])) if a["input"]["k"] != "none" else None
+            c.count("assign:checker=" + case["checker"]["k"] + ":" +
+                    ("not-of-the-type" if exp_ is None else
+                     ("accepted" if check_py(case["checker"], exp_) else "refused") +
+                     ("-after-coercion" if not ast_eq(exp_, a["input"]) else "")))
+        if case.get("bare_field"):
+            c.count("assign:bare-field")
         if case.get("default") is not None:
             t0_ = strip_opt(case["annot"])
             exp = coerce_doc(case["default"], t0_)
@@ -1017,7 +1195,7 @@ def run(c: Check):
         for op, x in zip(case["ops"], a):
             c.count("graph:" + op["op"] + ("=raised:" + x.get("exc", "?") if x["raised"] else "=accepted"))
         # the last submit / validate of the history, on the objects as they are then
-        k, op, _, nodes, inits = [h for h in history(case, a) if h[1]["op"] != "set"][-1]
+        k, op, _, nodes, inits, sealed = [h for h in history(case, a) if h[1]["op"] != "set"][-1]
         r = reachable(nodes, op["root"], inits)
         miss = [i for i in range(len(nodes)) if lacks(nodes[i])]
         direct = reachable(nodes, op["root"], inits, deep=False)
@@ -1028,6 +1206,11 @@ def run(c: Check):
                                     else "held-directly" if any(i in direct for i in miss) else "only-through-list-or-dict"))
         if case.get("mode") == "pipeline":
             c.count("graph:pipeline:tasks-held=%d" % len([i for i in r if i in tried]))
+        unsealed = reachable(nodes, op["root"], inits, stop=sealed, stop_root=True)
+        if miss and any(i in r for i in miss) and not any(i in unsealed for i in miss):
+            c.count("graph:missing-only-on-or-below-sealed=" + ("root-sealed" if op["root"] in sealed else "loaded-or-instantiated"))
+        if case.get("loaded"):
+            c.count("graph:loaded-region-size=%d" % len(case["loaded"]["region"]))
         if len(r) >= 3:
             c.nontrivial.add(json.dumps([case["nodes"], case["ops"]], sort_keys=True))
     # the oracle sees the cases smallest first, so that the replay kept for a key is the smallest failing input
@@ -1035,6 +1218,10 @@ def run(c: Check):
         oracle_assign(c, case, case["ans"])
     for case in sorted(graphs, key=size_of):
         oracle_graph(c, case, case["ans"])
+    for case, a in zip(special, rs):
+        c.evaluations += 1
+        c.count("union:" + ("undeclarable" if not a["declared"] else "raised" if a["raised"] else "stored"))
+        oracle_special(c, case, a)
     c.samples = ([dict(kind="assign", annot=x["annot"], v=x["v"], answer=x["ans"]) for x in assign[:2]] +
                  [dict(kind="graph", nodes=x["nodes"], ops=x["ops"], answer=x["ans"]) for x in graphs[:1]])
     header = ("From Coq Require Import ZArith List Bool String.\n"
